@@ -264,6 +264,24 @@ func TestRunnerRestartsAfterErrors(t *testing.T) {
 	if err != nil {
 		t.Fatal(err)
 	}
+	// the REPL mode must give the same verdicts
+	r2 := &Runner{Parallel: 2}
+	res2, err := r2.EvalREPL(context.Background(), exprs)
+	if err != nil {
+		t.Fatal(err)
+	}
+	for i := range res {
+		a, b := res[i], res2[i]
+		if a.OK != b.OK || a.ErrClass != b.ErrClass || (a.OK && a.Value != b.Value && i != 6) {
+			t.Errorf("expr %d %s: batch mode ok=%v %q %s / REPL mode ok=%v %q %s (%s)", i, a.Expr, a.OK, a.Value, a.ErrClass, b.OK, b.Value, b.ErrClass, b.ErrMsg)
+		}
+	}
+	if v1, e1 := ParseValue(res[6].Value, ParseOptions{}); e1 == nil {
+		if v2, e2 := ParseValue(res2[6].Value, ParseOptions{}); e2 != nil || !v1.Equal(v2) {
+			t.Errorf("expr 6: modes differ: %v", e2)
+		}
+	}
+	t.Logf("REPL JVM runs: %d", r2.JVMRuns.Load())
 	want := map[int]string{1: "overflow", 2: "div-by-zero", 3: "out-of-domain", 4: "out-of-domain", 5: "type", 7: "assert", 8: "choose", 9: "out-of-domain", 13: "parse"}
 	for i, x := range res {
 		t.Logf("%2d %-40s ok=%v value=%.40q class=%s msg=%.80q", i, x.Expr, x.OK, x.Value, x.ErrClass, x.ErrMsg)
